@@ -674,10 +674,19 @@ def oracle(c, o):
                 elif not undelegating_op and k != "slash" and (now_l[5] != 0 or now_l[3] < plocks[lid][3]):
                     bad("unlock_while_delegated", i, "delegated lock %d: end %d -> %d, amount %d -> %d" % (lid, plocks[lid][5], now_l[5], plocks[lid][3], now_l[3]))
         # --- stake tracks locks
+        carried = {}
         if r["code"] == 0 and k == "epoch":
             for key, a in r["acc"].items():
                 if a["exists"]:
-                    budget[key] = sum(1 for cn in r["conns"] if (cn[1], cn[2]) == key)
+                    n_ = sum(1 for cn in r["conns"] if (cn[1], cn[2]) == key)
+                    if r["vals"][key[1]][1] == r["vals"][key[1]][0] * P18:
+                        budget[key] = n_
+                    else:
+                        # exchange rate != 1 (after a slash; outside the claimed scope): the refresh may be unable to remove a residue
+                        # (RoundInt of the token value rounds up, the shares for that amount exceed the delegation: "invalid shares
+                        # amount" is logged and the account is skipped), so the allowance accumulated so far is carried over
+                        carried[key] = budget.get(key, 0)
+                        budget[key] = max(budget.get(key, 0), n_)
         if r["code"] == 0 and k == "slash":
             # every lock behind the slashed validator loses trunc(amount * fraction): up to one share (worth mult * (1 - rf)) per lock
             for key in list(r["acc"].keys()):
@@ -708,7 +717,7 @@ def oracle(c, o):
             ideal = Fraction(r["mult"][d] * total * (P18 - rf), P18 * P18)
             per_lock = sum(lock_value(r["mult"][d], rf, l[3]) for l in mine)
             if r["code"] == 0 and k == "epoch":
-                tol = slack
+                tol = slack + carried.get((d, vv), 0)
                 if a["expected"] >= 0 and abs(a["tokens"] - a["expected"]) > tol:
                     bad("refresh_exact", i, "account (%d,%d): delegation %d != expected %d right after the refresh" % (d, vv, a["tokens"], a["expected"]))
                 if abs(a["tokens"] - ideal) > 1 + tol:
